@@ -176,7 +176,9 @@ def decompose(test: ast.AST, pol: bool) -> List[Tuple[ast.AST, bool]]:
             for v in test.values:
                 out += decompose(v, False)
             return out
-        return []
+        # `a and b` is false / `a or b` is true: no atom follows, the compound test itself is the fact (also when it is
+        # nested in a conjunction: `x and not (a and b)`)
+        return [(test, pol)]
     if isinstance(test, ast.NamedExpr):
         return decompose(test.value, pol) + [(test.target, pol)]
     return [(test, pol)]
